@@ -1,4 +1,5 @@
 """C08 — the injector's item vector is a linearizable append-only sequence (structural clauses)."""
+from common import closure_tree
 from cfg import Inconclusive, op_place, show, walk, strip_casts
 from common import (atomic_op, calls_to, callee, callee_names, closure_consumer, closure_creations,
                     field_chain, fn_of, find_fn, get_fn, head_sources, is_call_to, ordering_of, peel,
@@ -133,7 +134,10 @@ def rule_lying_iter(ctx):
     fn = get_fn(ctx.facts, "nucleo", VEC + "extend")
     fa = [(bi, t) for bi, t in fn.calls(lambda t: atomic_op(t) == "fetch_add")]
     if len(fa) != 1:
-        raise Inconclusive("extend: expected exactly one fetch_add, found %d" % len(fa))
+        # only the reservation counter matters here (a statistics counter bumped elsewhere is C09's business)
+        fa = [(bi, t) for bi, t in fa if classify(fn, fn.expr_of_operand(t["args"][0])) == "Vec.inflight"]
+    if len(fa) != 1:
+        raise Inconclusive("extend: expected exactly one fetch_add on the reservation counter, found %d" % len(fa))
     amount = strip_casts(fn.expr_of_operand(fa[0][1]["args"][1]))
     # peel u64::from(..)
     if amount[0] == "call" and "From" in str(amount[1]):
@@ -411,6 +415,41 @@ def rule_get_verdicts(ctx):
             pass
     if n_none == 0:
         ctx.ok(site(fn, 0), "no unconditional None in Vec::get (the verdict is `active.load(..).then(..)`)")
+
+
+def rule_layout_pure(ctx):
+    """Where entry i lives is `base + i * Entry::<T>::layout(cols).size()`, computed independently by alloc, get and
+    dealloc; push and get agree on the slot of an index only if that stride is a pure function of (T, cols).  The
+    layout functions therefore read nothing but their arguments and type-level constants: no statics, no atomics, no
+    `self` state (a memo in a `static` inside a generic function is shared by every T)."""
+    import json as _json
+    facts = ctx.facts
+    n = 0
+    for b in facts.bodies_of("nucleo"):
+        if not (b["path"].startswith("boxcar::") and b["path"].endswith("::layout")) or b.get("kind") == "Closure":
+            continue
+        fn = fn_of(b)
+        n += 1
+        bad = []
+        for f_ in closure_tree(facts, "nucleo", b["path"]):
+            for bi, t in f_.calls(lambda t: atomic_op(t) is not None):
+                bad.append("atomic %s" % atomic_op(t))
+            js = _json.dumps(f_.b["blocks"])
+            if '"static"' in js or '"kind": "static"' in js:
+                bad.append("reads a static")
+            for bi in sorted(f_.live):
+                for s_ in f_.blocks[bi]["stmts"]:
+                    if s_.get("k") == "assign":
+                        for x in walk(f_.expr_of_rvalue(s_["rv"])):
+                            if x[0] == "static":
+                                bad.append("reads static %s" % x[1])
+        if bad:
+            ctx.violation("%s|pure|1" % b["path"], site(fn, 0),
+                          "%s %s: the stride between entries is no longer a function of (T, cols) alone; with a value remembered from another item type, push and get address "
+                          "different slots for the same index and neighbouring entries overlap" % (b["path"], sorted(set(bad))))
+        else:
+            ctx.ok(site(fn, 0), "%s depends on its arguments and the item type only" % b["path"])
+    ctx.floor("layout functions of the vector", n, 2)
 
 
 def rule_bucket_race(ctx):
@@ -896,3 +935,4 @@ def rules(ctx):
     ctx.run_rule("C08.get-verdicts", rule_get_verdicts)
     ctx.run_rule("C08.bucket-race", rule_bucket_race)
     ctx.run_rule("C08.len-agree", rule_len_agree)
+    ctx.run_rule("C08.layout-pure", rule_layout_pure)
